@@ -134,20 +134,27 @@ def _evaluated_first(head, use) -> bool:
 
 
 def _inline_temps(fn) -> int:
+    """A local name all of whose occurrences come in adjacent pairs `t = E` / <statement evaluating t once, first>
+    (one pair, or one pair per branch as in `result = ...; return result`) is replaced by E in each pair."""
     count, changed = 0, True
     while changed:
         changed = False
-        occ = {}
+        occ, banned = {}, set()
         for x in ast.walk(fn):
             if isinstance(x, ast.Name):
                 occ.setdefault(x.id, []).append(x)
             elif isinstance(x, (ast.Global, ast.Nonlocal)):
-                for nm in x.names:
-                    occ.setdefault(nm, []).extend([None, None, None])
+                banned.update(x.names)
             elif isinstance(x, ast.arg):
-                occ.setdefault(x.arg, []).extend([None, None, None])
+                banned.add(x.arg)
             elif isinstance(x, ast.ExceptHandler) and x.name:
-                occ.setdefault(x.name, []).extend([None, None, None])
+                banned.add(x.name)
+        # names that occur inside a nested scope are left alone
+        for sc in [n for n in ast.walk(fn) if isinstance(n, _SCOPES) and n is not fn]:
+            for x in ast.walk(sc):
+                if isinstance(x, ast.Name):
+                    banned.add(x.id)
+        pairs = {}        # name -> [(list, index, target, value, use, head)]
         for n, fld, lst in list(_stmt_lists(fn)):
             for i in range(len(lst) - 1):
                 st, nxt = lst[i], lst[i + 1]
@@ -157,33 +164,39 @@ def _inline_temps(fn) -> int:
                     t, val = st.target, st.value
                 else:
                     continue
-                if isinstance(val, (ast.Yield, ast.YieldFrom, ast.Await, ast.Lambda, ast.NamedExpr)):
+                if t.id in banned or isinstance(val, (ast.Yield, ast.YieldFrom, ast.Await, ast.Lambda, ast.NamedExpr)):
                     continue
-                os_ = occ.get(t.id, [])
-                if len(os_) != 2 or any(o is None for o in os_):
-                    continue
-                use = [o for o in os_ if o is not t]
-                if len(use) != 1 or not isinstance(use[0].ctx, ast.Load):
+                if any(isinstance(x, ast.Name) and x.id == t.id for x in ast.walk(val)):
                     continue
                 head = _head(nxt)
-                if head is None or not any(x is use[0] for x in ast.walk(head)):
+                if head is None:
                     continue
-                if not _evaluated_first(head, use[0]):
+                uses = [x for x in ast.walk(nxt) if isinstance(x, ast.Name) and x.id == t.id]
+                if len(uses) != 1 or not isinstance(uses[0].ctx, ast.Load) or not any(x is uses[0] for x in ast.walk(head)):
                     continue
+                if not _evaluated_first(head, uses[0]):
+                    continue
+                pairs.setdefault(t.id, []).append((lst, st, nxt, t, val, uses[0], head))
+        for name, ps in pairs.items():
+            os_ = occ.get(name, [])
+            paired = {id(p[3]) for p in ps} | {id(p[5]) for p in ps}
+            if len(os_) != 2 * len(ps) or any(id(o) not in paired for o in os_):
+                continue
+            # a pair whose use-statement is itself the definition of another pair of the same name cannot occur
+            # (the value must not mention the name), so the pairs are independent
+            for lst, st, nxt, t, val, use, head in ps:
 
                 class S(ast.NodeTransformer):
                     def visit_Name(self, nd):
-                        return val if nd is use[0] else nd
+                        return val if nd is use else nd
                 new_head = S().visit(head)
                 for f_ in ("value", "exc", "test", "iter"):
                     if getattr(nxt, f_, None) is head:
                         setattr(nxt, f_, new_head)
-                del lst[i]
+                lst[:] = [x for x in lst if x is not st]
                 count += 1
-                changed = True
-                break
-            if changed:
-                break
+            changed = True
+            break
     return count
 
 
